@@ -739,6 +739,68 @@ func runC15(c *Ctx) error {
 			c.count(tag, true, "kind=async-mixed")
 		}
 	}
+	// ---- (f) tasks still queued when the connection ends and ReadLoop finishes are run all the same (their writes report
+	// the closed connection): every submitted task runs exactly once
+	for _, server := range []bool{true, false} {
+		for _, ending := range []string{"peer-close", "eof", "local-close"} {
+			spec := connSpec{Server: server}
+			conn, tap, err := spec.open(&recHandler{})
+			if err != nil {
+				return err
+			}
+			release := make(chan struct{})
+			started := make(chan struct{})
+			var mu sync.Mutex
+			ran := map[string]int{}
+			rec := func(name string) {
+				mu.Lock()
+				ran[name]++
+				mu.Unlock()
+			}
+			conn.Async(func() { close(started); <-release; rec("slow") })
+			<-started
+			conn.WriteAsync(gws.OpcodeBinary, []byte("queued-1"), func(error) { rec("w1") })
+			conn.WritevAsync(gws.OpcodeBinary, [][]byte{[]byte("queued-2")}, func(error) { rec("w2") })
+			conn.Async(func() { rec("plain") })
+			rl := make(chan struct{})
+			go func() { defer close(rl); conn.ReadLoop() }()
+			switch ending {
+			case "peer-close":
+				tap.feed(dataFrame(8, true, server, []byte{0x03, 0xe8}))
+			case "eof":
+				tap.setEOF()
+			case "local-close":
+				_ = conn.WriteClose(1000, nil)
+			}
+			select {
+			case <-rl:
+			case <-time.After(5 * time.Second):
+			}
+			time.Sleep(5 * time.Millisecond)
+			close(release)
+			deadline := time.Now().Add(3 * time.Second)
+			for time.Now().Before(deadline) {
+				mu.Lock()
+				n := len(ran)
+				mu.Unlock()
+				if n == 4 {
+					break
+				}
+				time.Sleep(time.Millisecond)
+			}
+			mu.Lock()
+			got := fmt.Sprint(ran)
+			ok := ran["slow"] == 1 && ran["w1"] == 1 && ran["w2"] == 1 && ran["plain"] == 1 && len(ran) == 4
+			mu.Unlock()
+			tag := fmt.Sprintf("tasks queued across the end of the connection role=%s ending=%s", roleName(server), ending)
+			if !ok {
+				c.oracleFail(fmt.Sprintf("tasks submitted before the connection ended did not all run exactly once: %s, want slow, w1, w2, plain once each [%s]", got, tag),
+					"async-task-lost", map[string]any{"tag": tag, "ran": got})
+			}
+			_ = tap.Close()
+			c.count(tag, true, "kind=async-across-teardown")
+		}
+	}
 	s, err := c15NewSys()
 	if err != nil {
 		return err
